@@ -78,11 +78,11 @@ def templates(level):
     return out
 
 
-def build(word, emb):
+def build(word, emb, skip=0):
     """-> (list of segments, list of requested arc radii per segment or None) or (None, reason)"""
     E = EMBEDDINGS[emb]
     sc = EMB_SCALE[emb]
-    fresh = iter(FRESH)
+    fresh = iter(FRESH[skip:] + FRESH[:skip])
     nf = lambda: E(*next(fresh))
     segs = []
     req = []
@@ -223,7 +223,7 @@ def features(segs):
     return f
 
 
-def check_path(segs, req, word, emb, acc, opts_list=OPTIONS):
+def check_path(segs, req, word, emb, acc, opts_list=OPTIONS, skip=0):
     p = Path(*segs)
     f = features(segs)
     # abstract serialiser state graph: state = (previous kind, closed?), transition = (state, joint relation, kind)
@@ -238,7 +238,7 @@ def check_path(segs, req, word, emb, acc, opts_list=OPTIONS):
     for opt in opts_list:
         r = outcome(lambda: p.d(**opt))
         okey = ''.join(k[0] for k, v in sorted(opt.items()) if v) or '-'
-        case = {'word': word, 'emb': emb, 'opt': opt}
+        case = {'word': word, 'emb': emb, 'opt': opt, 'skip': skip}
         if r[0] == 'exc':
             acc.case(case, cls='d_raises', nontrivial=True)
             acc.violation('d_raises', {'exc': r[1], 'opt': okey, **f}, case, observed=r[1])
@@ -327,6 +327,7 @@ def shards(tier, seed):
                 out.append({'emb': emb, 'set': 'reduced', 'first': i})
         for k in range(8):
             out.append({'emb': emb, 'set': 'family', 'first': k})
+        out.append({'emb': emb, 'set': 'reflect2', 'first': 0})
     return out
 
 
@@ -334,6 +335,15 @@ def run_shard(desc, tier, seed):
     acc = core.Acc()
     tp = tier_params(tier, seed)
     emb = desc['emb']
+    if desc['set'] == 'reflect2':
+        # smooth joints whose control point was built as start + (start - c) rather than
+        # 2*start - c, over many coordinate choices (rounding-sensitive S/T decision)
+        for skip in range(len(FRESH)):
+            for k in 'CQ':
+                for n in (2, 3):
+                    word = [(k, 'new', 'generic', 'fresh', None)] + [(k, 'cont', 'reflect2', 'fresh', None)] * (n - 1)
+                    run_word(tuple(word), emb, acc, skip=skip)
+        return acc
     if desc['set'] == 'family':
         fam = through_start_family(tp['family_len'] if desc['emb'] in ('E0', 'E1') else 4)
         for idx, word in enumerate(fam):
@@ -353,12 +363,12 @@ def run_shard(desc, tier, seed):
     return acc
 
 
-def run_word(word, emb, acc, opts_list=OPTIONS):
-    segs, req = build(word, emb)
+def run_word(word, emb, acc, opts_list=OPTIONS, skip=0):
+    segs, req = build(word, emb, skip)
     if segs is None:
         acc.filt(req)
         return
-    check_path(segs, req, [list(t) for t in word], emb, acc, opts_list)
+    check_path(segs, req, [list(t) for t in word], emb, acc, opts_list, skip)
 
 
 def expected_classes(tier):
@@ -397,5 +407,5 @@ def space(tier, seed):
 def replay(case):
     acc = core.ReplayAcc()
     word = tuple(tuple(t) for t in case['word'])
-    run_word(word, case['emb'], acc, [case['opt']])
+    run_word(word, case['emb'], acc, [case['opt']], case.get('skip', 0))
     return acc.vlist
